@@ -42,6 +42,11 @@ LEVEL_TEXT = ("Theorems over all line sequences, all option combinations and all
               "with a class-disjointness test proved sound for well-formed characters) at most bound2 r n K; every regex found in the "
               "three parsers is proved (by computation on the regenerated ASTs) to meet A2, hence C12_repo_regexes_bounded: each of "
               "them matches every well-formed subject within bound2 steps; all but numpy._RE_PARAMETER meet A1 itself. "
+              "Closed form: bound2 r n K <= coef2 r * (n+1)^deg2 r * (K+1) (degree = number of unbounded quantifiers along the longest "
+              "alternative), and for every regex of the parsers deg2 <= 8 (5 at present). "
+              "Exception guards: a second translator regenerates the table of every look-up on docstring.parent and of annotation "
+              "compilation (what the operation can raise by its shape, what the enclosing suppress/except catches); Coq proves every "
+              "raised class is a subclass of a caught one. "
               "No hidden state: for every history of parses, assignments to value / parser / parser_options and reads of parsed / lines on "
               "one docstring, parse returns what a fresh docstring with the current attributes returns (= parse_pure of the current text, "
               "effective style and options); tied by a stream of histories on one object compared with fresh objects and with the model. "
@@ -52,6 +57,9 @@ LEVEL_TEXT = ("Theorems over all line sequences, all option combinations and all
 LEVEL_NOTE = ("Trusted: Coq kernel, extraction, CPython's re._parser as front end of the regex translator (the parse tree of the engine that "
               "runs the pattern), CPython's str methods for the fields of non-ASCII characters (word / space / decimal / lower / "
               "case-insensitive ASCII letter), the reconstruction of text sections from line indices. "
+              "Trusted in the guard table: the shape rules saying what a look-up can raise (AttributeError on a None parent or a missing "
+              "attribute, KeyError for parameters[...], KeyError/ValueError/TypeError/alias errors for parent[...], IndexError for "
+              ".elements[...], SyntaxError/ValueError/RecursionError/MemoryError for compile()). "
               "Not modelled: parse_docstring_annotation / compile and the expression builder (annotation sources are compared, their "
               "compilation is exercised by the direct evaluation only), textwrap.dedent of Numpy descriptions (descriptions of "
               "Numpy items other than parameters are not compared), look-ups on the parent beyond 'is there an annotation' "
@@ -60,7 +68,7 @@ LEVEL_NOTE = ("Trusted: Coq kernel, extraction, CPython's re._parser as front en
               "repaired by fix: commits and kept as must-pass corpus cases. No known finding is left.")
 MODEL = ("Model.C12_run", "run_C12x")
 MODEL_TARGETS = ["Model/C12_run.vo"]
-COQ_TARGETS = ["Proofs/C12_docstrings.vo", "Proofs/C12_regex.vo", "Proofs/C12_regex2.vo", "Proofs/C12_chars.vo", "Proofs/C12_history.vo"]
+COQ_TARGETS = ["Proofs/C12_docstrings.vo", "Proofs/C12_regex.vo", "Proofs/C12_regex2.vo", "Proofs/C12_regex3.vo", "Proofs/C12_chars.vo", "Proofs/C12_history.vo", "Proofs/C12_guards.vo"]
 RULE = ("texts of <=12 lines (some longer) assembled from section keywords, separators, indentation levels, item syntaxes and prose: "
         "(a) exhaustive sequences of <=3 line classes (thorough: <=4) from a 13-letter alphabet per style, (b) seeded random fragment sequences, "
         "(c) structured mostly-valid docstrings per style with seeded perturbations (dropped blank lines, shifted indents), "
@@ -719,6 +727,8 @@ def translate(ctx):
     from harness.translate import c12_regexes
     EX = None
     EX = c12_regexes.translate(ctx)
+    from harness.translate import c12_guards
+    ctx.stats["guard_sites"] = len(c12_guards.translate(ctx))      # coq/Gen/C12_guards.v: look-ups on the parent and what is caught
     # from here on the harness's own feature extractor evaluates the regexes and tables of the tree under test with CPython's
     # re and str (the copies at the top of this file are only the fallback for a translator that failed closed)
     G_SECTION_KIND = dict(EX.section_kind["google"])
